@@ -338,6 +338,14 @@ func replayExtra(cs Case) (string, bool) {
 		return checkEncoderValue(k, string(cs.Input), oi), true
 	case "token-dup":
 		return checkTokenDup(string(cs.Input)), true
+	case "delegating":
+		return checkDeleg(delegCase{text: cs.InputText, ptr: ptrOfDeleg(cs.InputText)}), true
+	case "marshal-error":
+		var ci, oi int
+		if n, _ := fmt.Sscanf(cs.Program, "%d %d", &ci, &oi); n == 2 && ci >= 0 && ci < len(mErrCases()) && oi >= 0 && oi < len(mErrOpts) {
+			return checkMarshalErr(ci, oi), true
+		}
+		return "", true
 	case "midway":
 		var k, cnt int
 		var obj, byValue bool
